@@ -279,6 +279,10 @@ impl TransportManagerHandle {
             "add known addresses",
         );
 
+        #[cfg(feature = "verif")]
+        verif_log::ADD_ORDER
+            .with(|log| log.borrow_mut().extend(peer_addresses.iter().cloned()));
+
         let mut peers = self.peers.write();
         let entry = peers.entry(*peer).or_default();
 
@@ -363,6 +367,25 @@ impl TransportManagerHandle {
                 "Failed to unregister protocol"
             );
         }
+    }
+}
+
+/// Verification hook: per-thread log of the order in which
+/// [`TransportManagerHandle::add_known_address`] hands the accepted addresses to the store (the
+/// iteration order of its `HashSet`). Adds code only.
+#[cfg(feature = "verif")]
+pub mod verif_log {
+    use multiaddr::Multiaddr;
+    use std::cell::RefCell;
+
+    thread_local! {
+        pub(super) static ADD_ORDER: RefCell<Vec<Multiaddr>> = const { RefCell::new(Vec::new()) };
+    }
+
+    /// The accepted addresses of the `add_known_address` calls on this thread since the last
+    /// call, in insertion order.
+    pub fn take_add_order() -> Vec<Multiaddr> {
+        ADD_ORDER.with(|log| std::mem::take(&mut *log.borrow_mut()))
     }
 }
 
